@@ -486,6 +486,9 @@ func cmdCheck(args []string) int {
 		}
 	}
 	start := time.Now()
+	// a run against a scratch copy of the repository (seeded-change tests) must
+	// not overwrite the evidence of the registered check, which is about /repo
+	scratchRepo = *repo != "/repo"
 	eng, err := loadEngine(*repo, repoPkgPatterns, nil)
 	if err != nil {
 		fmt.Printf("govc: cannot load %s: %v\n", *repo, err)
@@ -638,9 +641,13 @@ func report(run *CheckRun, wall float64, selfOK bool, selfNotes []string) int {
 		"wall_s":      round3(wall),
 		"violations":  len(violations),
 	}
-	os.MkdirAll(filepath.Join(verifDir, "evidence"), 0o755)
+	evDir := filepath.Join(verifDir, "evidence")
+	if scratchRepo {
+		evDir = filepath.Join(verifDir, "out", "scratch-evidence")
+	}
+	os.MkdirAll(evDir, 0o755)
 	b, _ := json.MarshalIndent(ev, "", " ")
-	os.WriteFile(filepath.Join(verifDir, "evidence", run.Prop+".json"), append(b, '\n'), 0o644)
+	os.WriteFile(filepath.Join(evDir, run.Prop+".json"), append(b, '\n'), 0o644)
 
 	fmt.Printf("govc %s %s: %d functions under contract, %d obligations claimed, %d discharged, %d undecided-new, %d violations (load %.1fs, vcgen %.1fs, solve %.1fs)\n",
 		run.Prop, run.Tier, len(run.Funcs), claimed, discharged, len(undecidedNew), len(violations), run.LoadSecs, run.GenSecs, run.SolveSecs)
@@ -927,3 +934,6 @@ var propertyAssumptions = map[string][]string{
 	"C17": {"only the renaming filter and the name-collision obligation are decided; semantic preservation of the minified program is not"},
 	"C18": {"only the location of limit errors and env.loc restoration are decided; stack-trace contents are not"},
 }
+
+// scratchRepo is set when the check was pointed at a directory other than /repo.
+var scratchRepo bool
